@@ -368,6 +368,31 @@ fn main() {
       });
       print!("{}", r.unwrap_or("PANIC\n".to_string()));
     }
+    Some("types") => {
+      // types: a family of FEEL types up to nesting depth 2, every ordered pair: is_equivalent and is_conformant of the real code.
+      // Each type is printed in a small prefix notation that the reference implementation (tools/typediff.py) reads.
+      let b: Vec<(String, FeelType)> = vec![("A".into(), FeelType::Any), ("0".into(), FeelType::Null), ("N".into(), FeelType::Number), ("S".into(), FeelType::String), ("B".into(), FeelType::Boolean), ("D".into(), FeelType::Date)];
+      let core: Vec<(String, FeelType)> = b[..4].to_vec();
+      let mut all: Vec<(String, FeelType)> = b.clone();
+      let mut level1: Vec<(String, FeelType)> = vec![];
+      for (n, t) in &core { level1.push((format!("L({})", n), FeelType::list(t))); level1.push((format!("R({})", n), FeelType::range(t))); }
+      for (n, t) in &core { level1.push((format!("F(;{})", n), FeelType::function(&[], t))); }
+      for (n, t) in &core { for (m, u) in &core[1..] { level1.push((format!("F({};{})", n, m), FeelType::function(&[t.clone()], u))); } }
+      for (n, t) in &core[2..] { for (m, u) in &core[..3] { level1.push((format!("F({},{};S)", n, m), FeelType::function(&[t.clone(), u.clone()], &FeelType::String))); } }
+      for (n, t) in &core { level1.push((format!("C(a={})", n), FeelType::context(&[(&"a".into(), t)]))); }
+      for (n, t) in &core[1..3] { for (m, u) in &core[..3] { level1.push((format!("C(a={},b={})", n, m), FeelType::context(&[(&"a".into(), t), (&"b".into(), u)]))); } }
+      level1.push(("C()".into(), FeelType::context(&[])));
+      all.extend(level1.iter().cloned());
+      // depth 2: list / range / function / context over a few depth-1 types
+      let pick: Vec<(String, FeelType)> = level1.iter().filter(|(n, _)| ["L(N)", "L(A)", "R(N)", "F(N;S)", "F(;S)", "C(a=N)", "C(a=N,b=A)", "C()"].contains(&n.as_str())).cloned().collect();
+      for (n, t) in &pick { all.push((format!("L({})", n), FeelType::list(t))); all.push((format!("F({};S)", n), FeelType::function(&[t.clone()], &FeelType::String))); all.push((format!("F(;{})", n), FeelType::function(&[], t))); all.push((format!("C(a={})", n), FeelType::context(&[(&"a".into(), t)]))); }
+      let mut out = String::new();
+      for (n1, t1) in &all { for (n2, t2) in &all {
+        let r = std::panic::catch_unwind(|| (t1.is_equivalent(t2), t1.is_conformant(t2)));
+        match r { Ok((e, c)) => out.push_str(&format!("{}\t{}\t{}\t{}\n", n1, n2, e, c)), Err(_) => out.push_str(&format!("{}\t{}\tPANIC\tPANIC\n", n1, n2)) }
+      } }
+      print!("{}", out);
+    }
     Some("scopes") => {
       // BOUNDED stand-in (not a proof): every stack of up to <max> contexts in which each context either binds `x` (to its
       // level) and/or `y z` or not: Scope::get_entry and Scope::search_deep must return the innermost binding, and
